@@ -202,7 +202,7 @@ _CACHE: Dict[tuple, Dict[str, str]] = {}
 
 def axis_of_graph(ctx, g) -> Dict[str, str]:
     """name -> POP | IND | AGG | MIXED for every node of the configuration of graph g (cached)."""
-    key = (ctx.ix.digest + ctx.ix.repo, g.cfg.name)
+    key = (ctx.ix.digest + ctx.ix.repo + ctx.ix.serial, g.cfg.name)
     if key in _CACHE:
         return _CACHE[key]
     dom = AxisDomain(ctx.ix)
